@@ -131,6 +131,20 @@ impl Msg {
     }
 }
 
+// revision of the election code under test, as selected by the check from the source tree (--rev <ab>:
+// a = vote_request adopts the request's term, b = response() counts a Vote/Ok only for the current term);
+// it is written into every case line (the model runs the same revision) and decides what "counted" means
+// for the stale-vote marker.  `main::probe_rev` determines the same two bits by behaviour.
+static REV_VOTE_TERM: std::sync::atomic::AtomicBool = std::sync::atomic::AtomicBool::new(false);
+static REV_VOTE_MATCH: std::sync::atomic::AtomicBool = std::sync::atomic::AtomicBool::new(false);
+pub fn set_rev(vote_term: bool, vote_match: bool) {
+    REV_VOTE_TERM.store(vote_term, std::sync::atomic::Ordering::Relaxed);
+    REV_VOTE_MATCH.store(vote_match, std::sync::atomic::Ordering::Relaxed);
+}
+pub fn rev_vote_term() -> bool { REV_VOTE_TERM.load(std::sync::atomic::Ordering::Relaxed) }
+pub fn rev_vote_match() -> bool { REV_VOTE_MATCH.load(std::sync::atomic::Ordering::Relaxed) }
+pub fn rev_str() -> String { format!("{}{}", rev_vote_term() as u8, rev_vote_match() as u8) }
+
 pub const FACTOR_MS: u64 = 1000;
 pub const HB_MS: u64 = 1000;
 pub const TT_MS: u64 = 3000;
@@ -323,7 +337,10 @@ impl World {
                     Msg::Resp(r, s) => {
                         let t = s.target as usize;
                         if t >= self.nodes.len() { return; }
+                        // marker "stale vote COUNTED": a revision whose response() checks the request's term
+                        // (rev_vote_match, from --rev) receives such an answer but does not count it
                         if before[t].candidate && raft::vx_req_kind(&r) == 'V' && raft::vx_res_is_ok(&s)
+                            && !rev_vote_match()
                             && raft::vx_req_term(&r) != before[t].term && self.orc.m_sv.is_none() {
                             self.orc.m_sv = Some(step);
                         }
